@@ -36,6 +36,9 @@ type c13Req struct {
 	err1     error
 	err2     error
 	partialN int
+	hijackOK bool
+	hijackE  string
+	hw       sim.SimHijackWriter
 }
 
 type c13Scen struct {
@@ -84,7 +87,7 @@ func genC13(x *Ctx) *c13Scen {
 		maxPayload = 70000
 	}
 	id := 0
-	kinds := []string{"get", "get", "post-gzip", "early-close", "post-trunc", "notfound", "panic", "post-deflate", "client-gone", "plain"}
+	kinds := []string{"get", "get", "post-gzip", "early-close", "post-trunc", "notfound", "panic", "post-deflate", "client-gone", "plain", "hijack"}
 	aes := []string{"gzip", "deflate", "gzip", "deflate, gzip", ""}
 	tp.Repeat(2, nClients, 600, func(int) {
 		var reqs []*c13Req
@@ -193,6 +196,30 @@ func runC13(x *Ctx) {
 			r.err2 = cw.Close()
 		}
 	}))
+	// the handler takes the connection over (a websocket upgrade does that) and keeps it for a while
+	ws.Route(ws.GET("/hijack").To(func(req *restful.Request, resp *restful.Response) {
+		t := sim.Cur()
+		r := byID[ReqID(req.Request)]
+		conn, _, err := resp.Hijack()
+		if err != nil {
+			r.hijackE = err.Error()
+			return
+		}
+		r.hijackOK = true
+		t.Count("fault-hijack")
+		off := 0
+		for i := 0; off < len(r.payload); i++ {
+			n := r.Chunks[i%len(r.Chunks)]
+			if off+n > len(r.payload) {
+				n = len(r.payload) - off
+			}
+			conn.Write(r.payload[off : off+n])
+			off += n
+			t.Y(sim.SiteHandler)
+		}
+		conn.Close()
+		t.Y(sim.SiteHandler)
+	}))
 	ws.Route(ws.POST("/echo").To(func(req *restful.Request, resp *restful.Response) {
 		r := byID[ReqID(req.Request)]
 		var ent echoEntity
@@ -236,6 +263,8 @@ func runC13(x *Ctx) {
 					hr = NewReq("GET", "/p/panic", hdr, nil, 0, r.ID)
 				case "early-close":
 					hr = NewReq("GET", "/p/early", hdr, nil, 0, r.ID)
+				case "hijack":
+					hr = NewReq("GET", "/p/hijack", hdr, nil, 0, r.ID)
 				case "notfound":
 					hr = NewReq("GET", "/p/none", hdr, nil, 0, r.ID)
 				case "plain":
@@ -258,13 +287,18 @@ func runC13(x *Ctx) {
 					// the client goes away: every underlying write from #WFailAt on fails
 					r.w.FaultMode, r.w.FailAt = sim.WFaultFail, r.WFailAt
 				}
+				var rw http.ResponseWriter = r.w
+				if r.Kind == "hijack" {
+					r.hw = sim.SimHijackWriter{SimWriter: r.w}
+					rw = r.hw
+				}
 				if sc.entry == 2 {
 					func() {
 						defer func() { r.escaped = recover() }()
-						c.ServeMux.ServeHTTP(r.w, hr)
+						c.ServeMux.ServeHTTP(rw, hr)
 					}()
 				} else {
-					r.escaped = Serve(c, sc.entry, r.w, hr)
+					r.escaped = Serve(c, sc.entry, rw, hr)
 				}
 				if r.w.Fired > 0 {
 					t.Count("fault-wfail")
@@ -291,7 +325,7 @@ func runC13(x *Ctx) {
 	if heldPreempt {
 		x.Count("reach:preempted-while-holding")
 	}
-	x.Res.Nontrivial = heldPreempt || s.Counts["fault-panic"]+s.Counts["fault-btrunc"]+s.Counts["fault-early-close"]+s.Counts["fault-wfail"] > 0
+	x.Res.Nontrivial = heldPreempt || s.Counts["fault-panic"]+s.Counts["fault-btrunc"]+s.Counts["fault-early-close"]+s.Counts["fault-wfail"]+s.Counts["fault-hijack"] > 0
 
 	for _, e := range s.Events() {
 		if e.Kind == "use-after-release" {
@@ -304,6 +338,19 @@ func runC13(x *Ctx) {
 				// bytes were lost by the fault; only the ledger, blocking and the other responses are judged
 				if r.escaped != nil {
 					x.Violate("panic-escaped", "request %d (client-gone): unexpected panic %v", r.ID, r.escaped)
+				}
+				continue
+			}
+			if r.Kind == "hijack" {
+				// the exchange no longer belongs to the framework: only what the new owner wrote counts,
+				// and the ledger, the tripwires and the other responses are judged as always
+				if r.escaped != nil {
+					x.Violate("panic-escaped", "request %d (hijack): unexpected panic %v", r.ID, r.escaped)
+				}
+				if !r.hijackOK {
+					x.Violate("hijack-refused", "request %d: Hijack on a writer that supports it answered %q", r.ID, r.hijackE)
+				} else if !bytes.Equal(r.w.ConnBytes, r.payload) {
+					x.Violate("foreign-payload", "request %d (hijack): the connection received %d bytes (%q), the handler wrote %d", r.ID, len(r.w.ConnBytes), clip(string(r.w.ConnBytes), 40), len(r.payload))
 				}
 				continue
 			}
